@@ -385,6 +385,16 @@ impl Server {
         self.queue("deactivate-all", &w);
     }
 
+    /// several share-control PDUs packed into one MCS send-data indication (legal once the session is active)
+    pub fn send_coalesced(&mut self, name: &str, parts: &[Wr]) {
+        let mut all = Wr::new();
+        for p in parts {
+            all.append(p);
+        }
+        let w = build::send_data_indication(&self.p, &all);
+        self.queue(name, &w);
+    }
+
     pub fn send_fastpath(&mut self, name: &str, updates: &Wr, long_form: bool) {
         let w = build::fastpath(updates, long_form, 0);
         self.queue(name, &w);
